@@ -71,6 +71,7 @@ fn sinc_line(ch: usize, ring: &[Vec<f64>], ops: &[Op]) -> String {
 fn run_hist<F: Fr>(ring: &[Vec<f64>], ops: &[Op], st: &mut Stream) -> Hist {
     let ch = F::CHANNELS;
     let op_line = sinc_line(ch, ring, ops);
+    mark(0, &op_line);
     let mut sinc = match new_sinc::<F>(ring) {
         Some(s) => s,
         None => {
